@@ -478,7 +478,83 @@ fn invariants(s: &Sid, before_tot: &BTreeMap<Pubkey, u128>, req: &str, out: &mut
     for u in 0..NUSERS { let k = Pubkey::new_from_array([100 + u; 32]); if owner_side_lamports(w, &k) as u128 + s.fees[u as usize] != s.lam0[u as usize] { out.oracle_fail(&format!("lamports of user {u} leaked: not all unused lamports are with the owner"), req); } }
 }
 
+// ---------------------------------------------------------------- market-pool oracle (C22, first clause) — independent of the model
+/// every pool of the stored Market, read with the program's public `Market::pool` accessor: (long amount, short amount)
+const POOL_KINDS: [gmsol_model::PoolKind; 16] = { use gmsol_model::PoolKind::*; [Primary, SwapImpact, ClaimableFee, OpenInterestForLong, OpenInterestForShort,
+    OpenInterestInTokensForLong, OpenInterestInTokensForShort, PositionImpact, BorrowingFactor, FundingAmountPerSizeForLong, FundingAmountPerSizeForShort,
+    ClaimableFundingAmountPerSizeForLong, ClaimableFundingAmountPerSizeForShort, CollateralSumForLong, CollateralSumForShort, TotalBorrowing] };
+#[derive(Clone, PartialEq, Debug)]
+struct PoolSnap { pools: Vec<Option<(u128, u128)>>, rec: (u64, u64) }
+impl PoolSnap {
+    fn take(w: &World) -> Option<PoolSnap> {
+        use gmsol_model::Balance;
+        let a = w.b.get(&w.market);
+        if a.data.is_empty() { return None; }
+        let m: Box<gmsol_store::states::Market> = Box::new(pod(&a.data));
+        let pools = POOL_KINDS.iter().map(|k| m.pool(*k).map(|p| (p.long_amount().unwrap_or(u128::MAX), p.short_amount().unwrap_or(u128::MAX)))).collect();
+        Some(PoolSnap { pools, rec: (m.state().long_token_balance_raw(), m.state().short_token_balance_raw()) })
+    }
+    fn kind(&self, i: usize) -> (u128, u128) { self.pools[i].unwrap_or((0, 0)) }
+    /// liquidity + swap impact + claimable fee, per token
+    fn min_balance(&self) -> (u128, u128) { let (a, b, c) = (self.kind(0), self.kind(1), self.kind(2)); (a.0 + b.0 + c.0, a.1 + b.1 + c.1) }
+    /// position collateral held in each token (long positions + short positions)
+    fn collateral(&self) -> (u128, u128) { let (a, b) = (self.kind(13), self.kind(14)); (a.0 + b.0, a.1 + b.1) }
+}
+
+/// the REAL `validate_market_balances(0, 0)` on the stored market (hook `verif::c44::validate_balances`)
+fn real_validate_market_balances(w: &World) -> bool {
+    let a = w.b.get(&w.market);
+    let mut buf = vec![0u128; (a.data.len() + 8) / 16 + 2];
+    let bytes = bytemuck::cast_slice_mut::<u128, u8>(&mut buf);
+    bytes[8..8 + a.data.len()].copy_from_slice(&a.data);
+    let (mut lam, mut lam2) = (a.lamports, 0u64);
+    let (key, owner, ek) = (w.market, a.owner, w.event_authority);
+    let mut empty: [u8; 0] = [];
+    let infos = [AccountInfo::new(&key, false, true, &mut lam, &mut bytes[8..8 + a.data.len()], &owner, false, 0),
+                 AccountInfo::new(&ek, false, false, &mut lam2, &mut empty, &SYS, false, 0)];
+    let infos = lifetime_hack(&infos);
+    let Ok(loader) = AccountLoader::<gmsol_store::states::Market>::try_from(&infos[0]) else { return false };
+    let _q = Quiet::new();
+    gmsol_store::verif::c44::validate_balances(&loader, &infos[1], (0, 0)).is_ok()
+}
+
+/// after EVERY instruction: (1) the recorded balance covers liquidity + swap impact + claimable fees and, separately,
+/// the position collateral — by the real validator AND recomputed here from the pool amounts; (2) anything but a
+/// completed execution leaves every pool identical; (3) a completed deposit / withdrawal / swap changes
+/// liquidity + swap impact + claimable fees by exactly what it moved into / out of the recorded balance.
+fn pool_oracle(w: &World, before: &Option<PoolSnap>, completed: bool, exact: bool, req: &str, out: &mut Out) {
+    let Some(after) = PoolSnap::take(w) else { return };
+    let (mb, col) = (after.min_balance(), after.collateral());
+    let covered = mb.0 <= after.rec.0 as u128 && mb.1 <= after.rec.1 as u128 && col.0 <= after.rec.0 as u128 && col.1 <= after.rec.1 as u128;
+    if !covered { out.oracle_fail(&format!("recorded balance {:?} does not cover liquidity + swap impact + claimable fees {:?} / collateral {:?}", after.rec, mb, col), req); }
+    if real_validate_market_balances(w) != covered { out.oracle_fail("the real validate_market_balances(0, 0) disagrees with the inequality recomputed from the pools", req); }
+    let Some(b) = before else { return };
+    if !completed {
+        if b.pools != after.pools { out.oracle_fail("a rejected instruction / a cancelled execution changed the pools of the market", req); }
+    } else if exact {
+        let mb0 = b.min_balance();
+        let d = |x: u128, y: u128| x as i128 - y as i128;
+        if d(mb.0, mb0.0) != d(after.rec.0 as u128, b.rec.0 as u128) || d(mb.1, mb0.1) != d(after.rec.1 as u128, b.rec.1 as u128) {
+            out.oracle_fail(&format!("completed execution: liquidity + swap impact + claimable fees moved by {}:{}, the recorded balance by {}:{}", d(mb.0, mb0.0), d(mb.1, mb0.1), d(after.rec.0 as u128, b.rec.0 as u128), d(after.rec.1 as u128, b.rec.1 as u128)), req);
+        }
+    }
+}
+
 fn exec(ss: &mut BTreeMap<String, Sid>, req: &str, out: &mut Out) -> (String, bool) {
+    let t: Vec<&str> = req.split(' ').collect();
+    let sid = t.get(2).map(|x| x.to_string()).unwrap_or_default();
+    let is_new = t.get(1) == Some(&"new");
+    let before = if is_new { None } else { ss.get(&sid).and_then(|s| PoolSnap::take(&s.w)) };
+    let r = exec_inner(ss, req, out);
+    if let Some(s) = ss.get(&sid) {
+        let completed = t.get(1) == Some(&"exec") && r.0.starts_with("ok completed");
+        pool_oracle(&s.w, &before, completed, EXACT_KIND(&t), req, out);
+    }
+    r
+}
+#[allow(non_snake_case)] fn EXACT_KIND(_t: &[&str]) -> bool { true }   // every action of this harness is a deposit
+
+fn exec_inner(ss: &mut BTreeMap<String, Sid>, req: &str, out: &mut Out) -> (String, bool) {
     let t: Vec<&str> = req.split(' ').collect();
     let bad = || ("bad-op".to_string(), false);
     if t.len() < 3 || t[0] != "life" { return bad(); }
